@@ -1,5 +1,6 @@
 """Bounded stand-in for C01 (and C10's ODE clause): random models, the real evaluators against an
 independent sympy reconstruction of V, rates, explicit terms and ODE = V*rates + explicit."""
+import copy
 import numpy as np
 from standins import models
 
@@ -49,8 +50,22 @@ def run(tier='quick', seed=0):
             failures.append({'key': 'model %d' % k, 'case': {'spec': spec, 'backend': backend}, 'observed': bad[:4]})
         elif len(samples) < 2:
             samples.append(spec)
+        if spec['derived']:
+            # a history: a second model with the same names and the same equation strings but another definition of the derived
+            # parameter, built in the same process after the first (a definition must not leak from one model into the next)
+            twin = copy.deepcopy(spec)
+            twin['derived'] = [(spec['derived'][0][0], '2*%s' % spec['params'][-1])]
+            try:
+                bad2 = check_spec(twin, rng, 'lambda')
+            except Exception as e:
+                bad2 = ["raises %s: %s" % (type(e).__name__, e)]
+            evals += 1
+            distinct.add(repr(twin['events']) + repr(twin['derived']))
+            if bad2:
+                failures.append({'key': 'model %d rebuilt with another derived-parameter definition' % k,
+                                 'case': {'spec': twin, 'backend': 'lambda', 'history': [spec]}, 'observed': bad2[:4]})
     return {'evaluations': evals, 'distinct_nontrivial': len(distinct), 'failures': failures, 'samples': samples,
-            'rule': 'seeded random models (1-4 states, 1-4 parameters, 1-4 events of 1-3 T/B/D transitions, numeric or symbolic magnitudes, five rate kinds incl. time-periodic, optional ODE terms, derived parameter, range-style names); ode, vMat, rates, explicit terms against an independent sympy reconstruction at 2 points and the symbolic identity; distinct by definition',
+            'rule': 'seeded random models (1-4 states, 1-4 parameters, 1-4 events of 1-3 T/B/D transitions, numeric or symbolic magnitudes, five rate kinds incl. time-periodic, optional ODE terms, derived parameter, range-style names; every model with a derived parameter is rebuilt in the same process with another definition of it); ode, vMat, rates, explicit terms against an independent sympy reconstruction at 2 points and the symbolic identity; distinct by definition',
             'bound': '%d models x 2 points; cython back end on every 8th model in the thorough tier' % n}
 
 
@@ -59,5 +74,10 @@ def replay(c):
     spec['events'] = [(r, [tuple(t) for t in trs]) for r, trs in spec['events']]
     spec['odes'] = [tuple(o) for o in spec['odes']]
     spec['derived'] = [tuple(o) for o in spec['derived']]
+    for h in c['case'].get('history', []):          # models built earlier in the same process
+        h['events'] = [(r, [tuple(t) for t in trs]) for r, trs in h['events']]
+        h['odes'] = [tuple(o) for o in h['odes']]
+        h['derived'] = [tuple(o) for o in h['derived']]
+        check_spec(h, np.random.RandomState(2), 'lambda')
     bad = check_spec(spec, np.random.RandomState(1), c['case'].get('backend', 'lambda'))
     return {'reproduced': bool(bad), 'observed': bad[:4], 'input': spec}
